@@ -328,8 +328,8 @@ def generate(tier, seed):
     # ---- is_single_peaked_pq_tree against the ALGORITHM it runs (Model/PQTreeSP.v: sp_matrix, isC1P's duplicate
     #      removal, the mirrored PQ-tree of Model/PQTree.v): exact agreement of the verdict at EVERY size; the mirror is
     #      proved sound (Proofs/PQTreeSP.v pq_tree_sp_sound), so a True answer confirmed by it is a proved True
-    for c in list(out):
-        if c["op"] == "c11.deciders" and c["payload"][3] & 1:
+    for k_, c in enumerate(list(out)):
+        if c["op"] == "c11.deciders" and c["payload"][3] & 1 and (not thorough or k_ % 4 == 0):
             out.append(case("c11.pq_exact", c["payload"][:3] + [0], m=len(c["payload"][1]), kind=c["tags"].get("kind")))
     for i in range(300 if not thorough else 3000):
         m = rng.randint(8, 12)       # the implementation's running time doubles with every level of the PQ-tree
